@@ -107,8 +107,7 @@ func (w Resolver) Resolve(id did.DID, _ *resolver.ResolveMetadata) (*did.Documen
 	if err != nil {
 		return nil, nil, fmt.Errorf("did:web HTTP response read error: %w", err)
 	}
-	var document did.Document
-	err = document.UnmarshalJSON(data)
+	document, err := parseDocument(data)
 	if err != nil {
 		return nil, nil, fmt.Errorf("did:web JSON unmarshal error: %w", err)
 	}
@@ -117,5 +116,36 @@ func (w Resolver) Resolve(id did.DID, _ *resolver.ResolveMetadata) (*did.Documen
 		return nil, nil, fmt.Errorf("did:web document ID mismatch: %s != %s", document.ID, id)
 	}
 
-	return &document, &resolver.DocumentMetadata{}, nil
+	return document, &resolver.DocumentMetadata{}, nil
+}
+
+// parseDocument parses the DID document served by the web server, which is untrusted input.
+// The DID library panics on some malformed documents (e.g. a null entry in verificationMethod) and accepts entries the rest
+// of the node cannot use: a null entry in a verification relationship has no verification method, which panics when it is
+// dereferenced (key resolution) or marshalled (API responses). Both are reported as an error here, the single place where
+// documents that did not pass any validation enter the node.
+func parseDocument(data []byte) (document *did.Document, err error) {
+	defer func() {
+		if r := recover(); r != nil {
+			document, err = nil, fmt.Errorf("malformed DID document: %v", r)
+		}
+	}()
+	document = new(did.Document)
+	if err = document.UnmarshalJSON(data); err != nil {
+		return nil, err
+	}
+	for _, relationships := range []did.VerificationRelationships{
+		document.Authentication,
+		document.AssertionMethod,
+		document.KeyAgreement,
+		document.CapabilityInvocation,
+		document.CapabilityDelegation,
+	} {
+		for _, relationship := range relationships {
+			if relationship.VerificationMethod == nil {
+				return nil, errors.New("verification relationship without verification method")
+			}
+		}
+	}
+	return document, nil
 }
